@@ -27,3 +27,23 @@ claim("C10",
       "SSA path/event dataflow on processIngestRequest and ingestWorker, disjunctive over the shouldFlush flag (tracked-boolean valuations), with comparison normalisation and counter provenance",
       "Trigger wiring: each of the five limits has a non-strict comparison on the matching counter whose true edge always reaches flushBufferedData before return (decided per flag valuation), counters advance once per buffered row, the ticker case leads from elapsed >= MaxBufferedTime to flushBufferedData before the next select, bufferStartTime is set before rows are buffered and reset only at flush. The latency bound (wall clock) is not decided.",
       TB)
+
+claim("C13",
+      "SSA path/event dataflow on executeMergeGroup, merge and Merge (ok/fail edges, operand-type discrimination of source vs output tombstones, return-value provenance through closures), lock facts for single-flight",
+      "Static necessary conditions of all-or-nothing merging on every path: output pointer only after footer-ok and Close-ok; Update unreachable from a failed group; sources tombstoned only after Update-ok, outputs only after a failure and only on error-returning paths; every failure edge returns (nil, provably non-nil error); stats only when committed or nothing to do; ErrPostCommitCleanup wrapped (%w) only after the commit with tombstone errors; merge only under mergeMu.TryLock with deferred Unlock, ErrMergeInProgress on the false edge. Store atomicity: known finding F1 for FileSystemDataStore.Update.",
+      TB + " The fault enumeration itself is not performed.")
+
+claim("C14",
+      "lock-discipline dataflow (guarded-by table for MemoryMetaStore), pending/kill failure-edge dataflow over the query region with closure summaries, interface-implementation scan of MetaStore.Update",
+      "Schedule-independent necessary conditions of snapshot consistency: MemoryMetaStore.files only under mu, Update one write-locked critical section, snapshot under RLock, no yield with mu possibly held; every failure edge in the query region (open, row read, filter read/plan, scan, materialise, iterator error) is recorded before return unless the query is cancelled; every shipped MetaStore.Update consumes both operation lists — known finding F1: FileSystemDataStore.Update ignores writes. Interleavings are not enumerated.",
+      TB)
+
+claim("C15",
+      "SSA path/event dataflow on renameOnCloseFile.Close/Abort, syncDir, CreateFile, TombstoneFile, the directory-scan iterator and Update; constant evaluation of open flags; string-constant provenance of paths",
+      "The publish protocol's ordering and cleanup obligations on every path: rename only after Sync-ok and Close-ok, success only after Rename-ok and directory fsync-ok, O_CREATE|O_EXCL on both creates with the reservation first and never left behind, scan yields only parsed .dat files, tombstone/abort remove every artifact. Commit atomicity/durability of Update: known findings F1 (writes ignored) and F2 (no directory fsync after unlink, errors dropped). Crash points are not enumerated (that needs execution).",
+      TB + " Assumes os.Rename/fsync semantics of POSIX filesystems.")
+
+claim("C16",
+      "value-identity checks on CreateFile/OpenFile (same SSA value reserved, returned and handed to the writer) + the C15 path rules",
+      "Structural conformance to the store's specification: the pointer returned is the reserved .dat path, the writer publishes to it from the exclusive .tmp sibling, OpenFile opens exactly the pointer, redraw only on IsExist, plus the shared publish-protocol rules (exclusive creates, rename after sync+close, scan limited to parsed .dat, tombstone/abort remove all artifacts). Call-sequence histories are not explored.",
+      TB)
